@@ -226,6 +226,10 @@ class AnsatzWorld(World):
             return {"k": "adapt_add", "idx": rng.randrange(10 ** 6)}
         if r < 0.62:
             mode = rng.choice(["fresh", "fresh", "fresh", "fresh", "sign_flip", "repeat", "pair_equal", "pair_equal", "same_again", "zeros", "ints"])
+            if self.theta is not None and not any(self.theta) and rng.random() < 0.5:
+                mode = "pair_equal"       # leaving the all-zero vector (where circuits are rebuilt) through a vector with equal entries
+            elif self.theta is not None and n > 1 and len(set(self.theta)) < n and any(self.theta) and rng.random() < 0.5:
+                mode = "fresh"
             return {"k": "update", "mode": mode, "zero_free": rng.random() < cfg["zero_free_p"], "seed": rng.randrange(10 ** 9)}
         if r < 0.66:
             return {"k": "set_update", "zero_free": rng.random() < cfg["zero_free_p"], "seed": rng.randrange(10 ** 9), "mode": rng.choice(["fresh", "zeros", "fresh"])}
